@@ -23,7 +23,7 @@ DEFAULT = {"http": 80, "https": 443, "ws": 80, "wss": 443}
 SERVERS = [("h", "default"), ("h", 8080), ("h", 80), ("h", 443), ("10.0.0.1", 80), ("::1", 8000)]
 HOSTS = [None, "x.org", "x.org:81", "[::1]:81"]
 ROOTS = ["", "/r", "/ré"]
-PATHS = ["/", "/a b", "/é", "/a?b", "/a#b", "", "/a/b.c"]
+PATHS = ["/", "/a b", "/é", "/a?b", "/a#b", "", "/a/b.c", "/r/users", "/r", "/ré/x"]
 QUERIES = [b"", b"a=1", b"a=%20&b"]
 
 
@@ -113,6 +113,26 @@ def base_url(b):
     return f"http://{netloc}/p/q?k=v#top"
 
 
+def empty_port(r):
+    """URLs written with an empty port ('host:') are legal; replacing components on them must work like on any other."""
+    from baize.datastructures import URL
+
+    for netloc, hn in (("example.org:", "example.org"), ("[fe::2]:", "fe::2"), ("al:pw@example.org:", "example.org")):
+        for kw in ({"port": 8080}, {"port": None}, {"path": "/x"}, {"username": "bob"}, {"port": 1, "scheme": "https"}):
+            r.count("evaluations")
+            r.count("distinct_nontrivial")
+            w = {"kind": "emptyport", "netloc": netloc, "kwargs": kw}
+            try:
+                u = URL(f"http://{netloc}/p").replace(**kw)
+                got = (u.hostname, u.port, u.path, u.scheme)
+            except Exception as e:  # noqa
+                r.violation("replace:empty-port:exception", w, f"URL('http://{netloc}/p').replace(**{kw}) raised {e!r:.100}")
+                continue
+            want = (hn, kw.get("port"), kw.get("path", "/p"), kw.get("scheme", "http"))
+            if got != want:
+                r.violation("replace:empty-port", w, f"URL('http://{netloc}/p').replace(**{kw}) = {str(u)!r}: (hostname, port, path, scheme) = {got}, expected {want}")
+
+
 def replacement(r, b, names):
     from baize.datastructures import URL
 
@@ -143,7 +163,7 @@ def replacement(r, b, names):
             r.add("outcomes", tuple(names))
 
 
-QBASES = ["", "a=1", "a=1&a=2&b=3", "flag=&page=3", "a=%20&b", "b=2&a=1&b=4"]
+QBASES = ["", "a=1", "a=1&a=2&b=3", "flag=&page=3", "a=%20&b", "b=2&a=1&b=4", "a=1&a=2&a=3&b=4", "a=1&b=2&a=3&a=4"]
 
 
 def query_helpers(r):
@@ -243,6 +263,7 @@ def run_shard(desc, tier):
     else:
         query_helpers(r)
         repr_check(r)
+        empty_port(r)
         r.sample({"query_base": QBASES[3], "helper": "remove", "keys": ["zz"]})
     return r
 
@@ -263,6 +284,8 @@ def replay(w):
     elif w["kind"] == "query":
         query_helpers(r)
         r.viol = {k: v for k, v in r.viol.items() if v[1].get("base") == w["base"] and v[1].get("helper") == w["helper"] and v[1].get("arg") == w["arg"]}
+    elif w["kind"] == "emptyport":
+        empty_port(r)
     else:
         repr_check(r)
     return bool(r.viol), {"violations": sorted(r.viol), "texts": [v[2][:300] for v in r.viol.values()]}
